@@ -530,6 +530,44 @@ func clCloseTeardown(c *Ctx) {
 	for _, f := range append(append([]ssa.Instruction{}, itemFrees...), nodeFrees...) {
 		c.Check(fi.Dominates(w2, f), fn, f, "sweep free happens after both worker groups were drained", "Close frees memory while free/GC workers may still touch it")
 	}
+	// the sweep exists: a cursor positioned at the first node, every linked node and its item freed in a loop
+	seekFirst := p.Func("skiplist", "Iterator", "SeekFirst")
+	itValid := p.Func("skiplist", "Iterator", "Valid")
+	sweepNode, sweepItem := false, false
+	for _, f := range nodeFrees {
+		if _, isPhi := strip(callOf(f).Args[1]).(*ssa.Phi); isPhi && fi.inLoop(f) {
+			sweepNode = true
+		}
+	}
+	for _, f := range itemFrees {
+		if fi.inLoop(f) {
+			sweepItem = true
+		}
+	}
+	sf := p.CallSites(fn, seekFirst)
+	okStart := len(sf) >= 1
+	for _, f := range append(append([]ssa.Instruction{}, itemFrees...), nodeFrees...) {
+		if fi.inLoop(f) && (len(sf) == 0 || !fi.Dominates(sf[0], f)) {
+			okStart = false
+		}
+	}
+	c.Check(sweepNode && sweepItem && okStart, fn, nil, "Close sweeps every node still linked: cursor positioned at the first node, item and node freed per node",
+		"Close no longer frees the nodes (and items) that are still linked in the store: every live item leaks")
+	// the node handed to the sweep comes from the cursor while it is valid
+	for _, f := range nodeFrees {
+		ph, ok := strip(callOf(f).Args[1]).(*ssa.Phi)
+		if !ok {
+			continue
+		}
+		fromCursor := 0
+		for _, e := range ph.Edges {
+			if gn, isCall := strip(e).(*ssa.Call); isCall && p.CallsAny(gn, itGetNode) {
+				fromCursor++
+				c.Check(fi.guardedByCall(gn, true, itValid), fn, gn, "sweep takes a node from the cursor only while the cursor is valid", "the tail sentinel is swept as an item node (freed twice)")
+			}
+		}
+		c.Check(fromCursor >= 2, fn, f, "sweep is fed by the cursor before and inside the loop", "the sweep loop is not advanced by the cursor: it frees at most one node or never terminates")
+	}
 	// sentinels freed exactly once each
 	heads, tails := 0, 0
 	for _, f := range nodeFrees {
@@ -775,5 +813,108 @@ func clInsertStopsWhenMarked(c *Ctx) {
 		stale := fi.PathAvoidingEdges(gn, func(y ssa.Instruction) bool { return y == d }, nil, synced)
 		c.Check(stale == nil, fn, d, "new node points at the successor its predecessor is expected to have before it is linked at an upper level",
 			"after a failed upper-level CAS the path is recomputed, but the node's own next pointer at that level still names the OLD successor: a node inserted in between at that level becomes unreachable there (the level is no longer a sub-sequence of the level below)")
+	}
+}
+
+// Every cursor opened on the (memory managed) item store inside the module is
+// closed on every path, or becomes the cursor of a snapshot iterator: an
+// unreleased barrier session blocks reclamation of every later session.
+func clStoreCursorsClosed(c *Ctx) {
+	p := c.P
+	newIt := p.Func("skiplist", "Skiplist", "NewIterator")
+	itClose := p.Func("skiplist", "Iterator", "Close")
+	fIter := p.Field("nitro", "Iterator", "iter")
+	cnt := counter{}
+	n := 0
+	for _, s := range p.AllCallSites(newIt) {
+		fn := s.Parent()
+		if fn.Package().Pkg.Path() != modPath {
+			continue
+		}
+		call, ok := s.(*ssa.Call)
+		if !ok || p.listFamily(call.Call.Args[0], 0) != "field:store" {
+			continue
+		}
+		// handed to a snapshot iterator?
+		kept := false
+		for _, r := range referrersOf(call) {
+			if st, ok := r.(*ssa.Store); ok {
+				if f, _ := addrField(st.Addr); f == fIter {
+					kept = true
+				}
+			}
+		}
+		if kept {
+			continue
+		}
+		n++
+		fi := p.Info(p.Root(fn))
+		isClose := func(x ssa.Instruction) bool {
+			if _, isGo := x.(*ssa.Go); isGo {
+				return false
+			}
+			cc := callOf(x)
+			return cc != nil && p.CallsAny(x, itClose) && (strip(cc.Args[0]) == ssa.Value(call) || cellHolds(fi, cc.Args[0], call))
+		}
+		leak := fi.PathAvoiding(s, isReturn, isClose)
+		c.Check(leak == nil, fn, s, cnt.in(fn, "cursor on the item store is closed on every path"),
+			"a cursor on the item store keeps its barrier session for ever: no session closed after it can be destructed, so unlinked nodes are never freed again")
+	}
+	if n == 0 {
+		c.Note("no plain cursor on the item store outside snapshot iterators")
+	}
+}
+
+// Worker goroutines signal their WaitGroup on every exit; Close waits for them.
+func clWorkersSignalDone(c *Ctx) {
+	p := c.P
+	wgDone := p.StdFunc("sync", "WaitGroup", "Done")
+	wgAdd := p.StdFunc("sync", "WaitGroup", "Add")
+	nw := p.Func("nitro", "Nitro", "NewWriter")
+	fWg1 := p.Field("nitro", "Nitro", "shutdownWg1")
+	fWg2 := p.Field("nitro", "Nitro", "shutdownWg2")
+	fi := p.Info(nw)
+	for _, e := range []struct {
+		fv     *types.Var
+		worker *ssa.Function
+	}{{fWg1, p.Func("nitro", "Nitro", "collectionWorker")}, {fWg2, p.Func("nitro", "Nitro", "freeWorker")}} {
+		// NewWriter: Add(1) on the group before the worker is started
+		var add, start ssa.Instruction
+		for _, in := range fi.Instrs {
+			if p.IsCall(in, wgAdd) {
+				if f, _ := addrField(callOf(in).Args[0]); f == e.fv {
+					add = in
+				}
+			}
+			if g, ok := in.(*ssa.Go); ok && g.Call.StaticCallee() == e.worker {
+				start = in
+			}
+		}
+		c.Check(add != nil && start != nil && fi.Dominates(add, start), nw, start, "worker "+e.worker.Name()+" is registered in its shutdown group before it starts", "Close does not wait for this worker")
+		wfi := p.Info(e.worker)
+		done := false
+		for _, in := range wfi.Instrs {
+			if d, ok := in.(*ssa.Defer); ok && p.CallsAny(d, wgDone) {
+				if f, _ := addrField(d.Call.Args[0]); f == e.fv {
+					all := true
+					for _, r := range wfi.Returns() {
+						if !wfi.Dominates(d, r) {
+							all = false
+						}
+					}
+					done = all
+				}
+			}
+		}
+		if !done {
+			done = wfi.PathAvoiding(nil, isReturn, func(x ssa.Instruction) bool {
+				if !p.IsCall(x, wgDone) {
+					return false
+				}
+				f, _ := addrField(callOf(x).Args[0])
+				return f == e.fv
+			}) == nil
+		}
+		c.Check(done, e.worker, nil, "worker "+e.worker.Name()+" signals its shutdown group on every exit", "Close blocks for ever waiting for this worker (or returns while it still runs)")
 	}
 }
